@@ -20,6 +20,7 @@ pub enum Prop {
     C13,
 }
 
+#[derive(Clone)]
 pub struct Cfg {
     pub prop:        Prop,
     pub builds:      Vec<Build>,
@@ -113,20 +114,25 @@ fn real_outcome_json(r: &RealOutcome) -> J {
 
 pub fn witness(shape: Shape, body: &[Instr]) -> J {
     json!({
-        "shape": {"ret": shape.ret.map(|v| v.name()), "hosts": shape.hosts},
+        "shape": {"ret": shape.ret.map(|v| v.name()), "hosts": shape.hosts, "extra_locals": shape.extra},
         "body": body_to_json(body),
         "text": body_text(body),
     })
 }
 
 pub fn witness_parse(w: &J) -> Option<(Shape, Vec<Instr>)> {
+    // module-structure witnesses are replayed through the enumeration (witness filter)
+    if w.get("structure").is_some() {
+        return None;
+    }
     let ret = match w["shape"]["ret"].as_str() {
         Some("i32") => Some(VT::I32),
         Some("i64") => Some(VT::I64),
         _ => None,
     };
     let hosts = w["shape"]["hosts"].as_bool().unwrap_or(false);
-    Some((Shape { ret, hosts }, body_from_json(&w["body"])?))
+    let extra = w["shape"]["extra_locals"].as_u64().unwrap_or(0) as u8;
+    Some((Shape { ret, hosts, extra }, body_from_json(&w["body"])?))
 }
 
 /// Merged observation log of the real host: ticks and events in order.
@@ -183,12 +189,24 @@ fn same_outcome(refr: &RefResult, real: &RealObs) -> bool {
 /// Check one program. Returns true if no violation was recorded for it.
 pub fn check_program(cfg: &Cfg, report: &Report, st: &mut Stats, shape: Shape, body: &[Instr]) -> bool {
     let module = gen::template(body, shape, false);
+    check_module(cfg, report, st, shape, body, &module, None)
+}
+
+/// `structure`: what distinguishes `module` from the plain template (part of the witness).
+pub fn check_module(cfg: &Cfg, report: &Report, st: &mut Stats, shape: Shape, body: &[Instr], module: &Module, structure: Option<&J>) -> bool {
+    let module = module.clone();
     let bytes = module.encode();
     let has_mem = module.memory.is_some();
     let builds: &[Build] = if has_mem { &cfg.builds_memory } else { &cfg.builds };
     let args_list: &[(i32, i32)] = if has_mem { &cfg.args_memory } else { &cfg.args };
     st.programs += 1;
-    let wit = || witness(shape, body);
+    let wit = || {
+        let mut w = witness(shape, body);
+        if let Some(s) = structure {
+            w["structure"] = s.clone();
+        }
+        w
+    };
     let mut ok = true;
 
     // instantiate every build
